@@ -11,6 +11,7 @@ import (
 	"sort"
 	"strconv"
 	"strings"
+	"sync"
 	"time"
 
 	"golang.org/x/tools/go/ssa"
@@ -68,6 +69,7 @@ type harnessEvidence struct {
 	FPMode      string         `json:"fp_mode"`
 	Replay      string         `json:"replay"`
 	Assumes     []string       `json:"assumptions_used,omitempty"`
+	SecondOpinion []string     `json:"decided_by_second_solver,omitempty"`
 }
 
 func cmdCheck(args []string) int {
@@ -79,6 +81,7 @@ func cmdCheck(args []string) int {
 	noNative := fs.Bool("no-native", false, "skip native replay")
 	budget := fs.Duration("budget", 0, "wall budget per harness")
 	verbose := fs.Bool("v", false, "verbose")
+	par := fs.Int("par", 6, "harnesses run concurrently")
 	fs.Parse(args)
 	if t := os.Getenv("VERIF_TIER"); t != "" && !flagSet(fs, "tier") {
 		*tier = t
@@ -124,9 +127,18 @@ func cmdCheck(args []string) int {
 	var samples []interface{}
 	inconclusive := []string{}
 	nViol := 0
-	nativeReplays := 0
 	knownPrinted := map[string]bool{}
 	exit := 0
+	type hOut struct {
+		lines        []string
+		he           *harnessEvidence
+		inconclusive []string
+		samples      []interface{}
+		nViol        int
+		known        []string
+		exit         int
+	}
+	var todo []*Config
 	for _, hc := range pf.Harnesses {
 		if *only != "" && hc.Name != *only {
 			continue
@@ -134,150 +146,200 @@ func cmdCheck(args []string) int {
 		if hc.OnlyTier != "" && hc.OnlyTier != *tier {
 			continue
 		}
-		cfg := hc.withTier(*tier)
-		if err := w.setIntercepts(cfg); err != nil {
-			fmt.Println("INCONCLUSIVE:", err)
-			inconclusive = append(inconclusive, cfg.Name+": "+err.Error())
-			continue
-		}
-		entry := w.findFunc(repoMod+"/"+cfg.Pkg, cfg.Entry)
-		if entry == nil {
-			msg := fmt.Sprintf("%s: entry %s.%s not found", cfg.Name, cfg.Pkg, cfg.Entry)
-			fmt.Println("INCONCLUSIVE:", msg)
-			inconclusive = append(inconclusive, msg)
-			continue
-		}
-		dl := time.Now().Add(24 * time.Hour)
-		if *budget > 0 {
-			dl = time.Now().Add(*budget)
-		}
-		hr, err := explore(w, cfg, entry, *workers, dl)
-		if err != nil {
-			fmt.Println("INCONCLUSIVE:", err)
-			inconclusive = append(inconclusive, cfg.Name+": "+err.Error())
-			continue
-		}
-		he := harnessEvidence{Name: cfg.Name, Entry: cfg.Pkg + "." + cfg.Entry, Doc: cfg.Doc, Bounds: cfg.Bounds, Params: cfg.Params,
-			Unwind: cfg.Unwind, MaxLoop: hr.MaxLoop, Paths: hr.Paths, Done: hr.Done, Pruned: hr.Pruned, PanicPaths: hr.PanicPaths,
-			Aborted: hr.Aborted, Forks: hr.Forks, Obligations: hr.Asserts, Discharged: hr.Discharged, Trivial: hr.Trivial,
-			Unknown: hr.Unknown, Queries: hr.Solver.Queries, QSat: hr.Solver.Sat, QUnsat: hr.Solver.Unsat, QUnknown: hr.Solver.Unknown,
-			SolverS: float64(hr.Solver.WallNS) / 1e9, SolverMaxS: float64(hr.Solver.MaxNS) / 1e9, WallS: hr.WallS, Steps: hr.Steps,
-			Functions: map[string]int{}, Intercepts: hr.Intercepts, Reached: hr.Reached, FPMode: "exact", Replay: cfg.Replay}
-		for a := range hr.Assumes {
-			he.Assumes = append(he.Assumes, a)
-		}
-		sort.Strings(he.Assumes)
-		if cfg.FPContract {
-			he.FPMode = "contract"
-		}
-		for name, n := range hr.FnInstr {
-			if strings.Contains(name, "zzverifrt") {
-				continue
+		todo = append(todo, hc.withTier(*tier))
+	}
+	outs := make([]*hOut, len(todo))
+	sem := make(chan struct{}, *par)
+	var hwg sync.WaitGroup
+	var printMu sync.Mutex
+	for hi, cfg := range todo {
+		hi, cfg := hi, cfg
+		hwg.Add(1)
+		go func() {
+			defer hwg.Done()
+			sem <- struct{}{}
+			defer func() { <-sem }()
+			o := &hOut{}
+			outs[hi] = o
+			say := func(f string, a ...interface{}) {
+				l := fmt.Sprintf(f, a...)
+				o.lines = append(o.lines, l)
+				printMu.Lock()
+				fmt.Println(l)
+				printMu.Unlock()
 			}
-			he.Functions[name] = n
-		}
-		if hr.Aborted > 0 {
-			he.Aborts = hr.AbortMsgs
-			var ms []string
-			for m, n := range hr.AbortMsgs {
-				ms = append(ms, fmt.Sprintf("%dx %s", n, m))
+			if err := w.setIntercepts(cfg); err != nil {
+				say("INCONCLUSIVE: %v", err)
+				o.inconclusive = append(o.inconclusive, cfg.Name+": "+err.Error())
+				return
 			}
-			sort.Strings(ms)
-			inconclusive = append(inconclusive, fmt.Sprintf("%s: %d inconclusive paths: %s", cfg.Name, hr.Aborted, strings.Join(ms, "; ")))
-		}
-		if hr.Unknown > 0 {
-			inconclusive = append(inconclusive, fmt.Sprintf("%s: %d obligations unknown (solver timeout)", cfg.Name, hr.Unknown))
-		}
-		if hr.Truncated {
-			inconclusive = append(inconclusive, fmt.Sprintf("%s: exploration truncated at %d paths", cfg.Name, hr.Paths))
-		}
-		if hr.Solver.Errors > 0 {
-			inconclusive = append(inconclusive, fmt.Sprintf("%s: %d solver errors", cfg.Name, hr.Solver.Errors))
-		}
-		for _, l := range cfg.Reach {
-			if hr.Reached[l] == 0 {
-				inconclusive = append(inconclusive, fmt.Sprintf("%s: vacuity: label %q never reached", cfg.Name, l))
+			entry := w.findFunc(repoMod+"/"+cfg.Pkg, cfg.Entry)
+			if entry == nil {
+				msg := fmt.Sprintf("%s: entry %s.%s not found", cfg.Name, cfg.Pkg, cfg.Entry)
+				o.inconclusive = append(o.inconclusive, msg)
+				return
 			}
-		}
-		// ---- violations: dedupe, self-replay, classify ----
-		seen := map[string]bool{}
-		for i := range hr.Violations {
-			v := &hr.Violations[i]
-			// known finding?
-			kid := ""
-			for _, tg := range v.Tags {
-				if k, ok := knownByID[tg]; ok && (k.Obligation == "" || strings.Contains(v.Msg, k.Obligation)) {
-					kid = tg
-				}
+			dl := time.Now().Add(24 * time.Hour)
+			if *budget > 0 {
+				dl = time.Now().Add(*budget)
 			}
-			key := v.Kind + "|" + v.Msg + "|" + kid
-			if seen[key] {
-				continue
+			hr, err := explore(w, cfg, entry, *workers, dl)
+			if err != nil {
+				o.inconclusive = append(o.inconclusive, cfg.Name+": "+err.Error())
+				return
 			}
-			seen[key] = true
-			ok, detail := selfReplay(w, cfg, entry, v)
-			if !ok {
-				inconclusive = append(inconclusive, fmt.Sprintf("%s: counterexample for %q did not self-replay (%s)", cfg.Name, v.Msg, detail))
-				continue
+			he := harnessEvidence{Name: cfg.Name, Entry: cfg.Pkg + "." + cfg.Entry, Doc: cfg.Doc, Bounds: cfg.Bounds, Params: cfg.Params,
+				Unwind: cfg.Unwind, MaxLoop: hr.MaxLoop, Paths: hr.Paths, Done: hr.Done, Pruned: hr.Pruned, PanicPaths: hr.PanicPaths,
+				Aborted: hr.Aborted, Forks: hr.Forks, Obligations: hr.Asserts, Discharged: hr.Discharged, Trivial: hr.Trivial,
+				Unknown: hr.Unknown, Queries: hr.Solver.Queries, QSat: hr.Solver.Sat, QUnsat: hr.Solver.Unsat, QUnknown: hr.Solver.Unknown,
+				SolverS: float64(hr.Solver.WallNS) / 1e9, SolverMaxS: float64(hr.Solver.MaxNS) / 1e9, WallS: hr.WallS, Steps: hr.Steps,
+				Functions: map[string]int{}, Intercepts: hr.Intercepts, Reached: hr.Reached, FPMode: "exact", Replay: cfg.Replay}
+			o.he = &he
+			for a := range hr.Assumes {
+				he.Assumes = append(he.Assumes, a)
 			}
-			if kid != "" {
-				he.Known++
-				if !knownPrinted[kid] {
-					knownPrinted[kid] = true
-					fmt.Printf("KNOWN-FINDING: property=%s %s: %s\n", *prop, kid, knownByID[kid].Description)
-				}
-				continue
+			sort.Strings(he.Assumes)
+			if cfg.FPContract {
+				he.FPMode = "contract"
 			}
-			rp := writeReplay(*prop, cfg, v, len(seen))
-			status := "self-replay confirmed"
-			if cfg.Replay == "native" && !*noNative {
-				okN, out := nativeReplay(&pf, cfg, v, rp)
-				nativeReplays++
-				if !okN {
-					fmt.Printf("ENCODING-MISMATCH: %s: %s: native replay did not reproduce %q\n%s\n", *prop, cfg.Name, v.Msg, tail(out, 30))
-					inconclusive = append(inconclusive, fmt.Sprintf("%s: native replay contradicts solver for %q", cfg.Name, v.Msg))
+			for name, n := range hr.FnInstr {
+				if strings.Contains(name, "zzverifrt") {
 					continue
 				}
-				status = "native replay confirmed"
+				he.Functions[name] = n
 			}
-			he.Violations++
-			nViol++
-			fmt.Printf("VIOLATION property=%s replay=%s\n", *prop, rp)
-			fmt.Printf("  harness=%s kind=%s msg=%q at %s (%s)\n", cfg.Name, v.Kind, v.Msg, v.Where, status)
-			if *verbose {
-				for _, t := range v.Trace {
-					fmt.Println("    trace:", t)
+			if hr.Aborted > 0 {
+				he.Aborts = hr.AbortMsgs
+				var ms []string
+				for m, n := range hr.AbortMsgs {
+					ms = append(ms, fmt.Sprintf("%dx %s", n, m))
+				}
+				sort.Strings(ms)
+				o.inconclusive = append(o.inconclusive, fmt.Sprintf("%s: %d inconclusive paths: %s", cfg.Name, hr.Aborted, strings.Join(ms, "; ")))
+			}
+			if hr.Unknown > 0 {
+				var ms []string
+				for m, n := range hr.UnknownMsgs {
+					ms = append(ms, fmt.Sprintf("%dx %q", n, m))
+				}
+				sort.Strings(ms)
+				o.inconclusive = append(o.inconclusive, fmt.Sprintf("%s: %d obligations unknown (solver timeout): %s", cfg.Name, hr.Unknown, strings.Join(ms, "; ")))
+			}
+			for m, n := range hr.SecondOp {
+				he.SecondOpinion = append(he.SecondOpinion, fmt.Sprintf("%dx %s", n, m))
+			}
+			sort.Strings(he.SecondOpinion)
+			if hr.Truncated {
+				o.inconclusive = append(o.inconclusive, fmt.Sprintf("%s: exploration truncated at %d paths", cfg.Name, hr.Paths))
+			}
+			if hr.Solver.Errors > 0 {
+				o.inconclusive = append(o.inconclusive, fmt.Sprintf("%s: %d solver errors", cfg.Name, hr.Solver.Errors))
+			}
+			for _, l := range cfg.Reach {
+				if hr.Reached[l] == 0 {
+					o.inconclusive = append(o.inconclusive, fmt.Sprintf("%s: vacuity: label %q never reached", cfg.Name, l))
 				}
 			}
+			// ---- violations: dedupe, self-replay, classify ----
+			seen := map[string]bool{}
+			for i := range hr.Violations {
+				v := &hr.Violations[i]
+				kid := ""
+				for _, tg := range v.Tags {
+					if k, ok := knownByID[tg]; ok && (k.Obligation == "" || strings.Contains(v.Msg, k.Obligation)) {
+						kid = tg
+					}
+				}
+				key := v.Kind + "|" + v.Msg + "|" + kid
+				if seen[key] {
+					continue
+				}
+				seen[key] = true
+				ok, detail := selfReplay(w, cfg, entry, v)
+				if !ok {
+					o.inconclusive = append(o.inconclusive, fmt.Sprintf("%s: counterexample for %q did not self-replay (%s)", cfg.Name, v.Msg, detail))
+					continue
+				}
+				if kid != "" {
+					he.Known++
+					o.known = append(o.known, kid)
+					continue
+				}
+				rp := writeReplay(*prop, cfg, v, len(seen))
+				status := "self-replay confirmed"
+				if cfg.Replay == "native" && !*noNative {
+					okN, out := nativeReplay(&pf, cfg, v, rp)
+					if !okN {
+						say("ENCODING-MISMATCH: %s: %s: native replay did not reproduce %q\n%s", *prop, cfg.Name, v.Msg, tail(out, 30))
+						o.inconclusive = append(o.inconclusive, fmt.Sprintf("%s: native replay contradicts solver for %q", cfg.Name, v.Msg))
+						continue
+					}
+					status = "native replay confirmed"
+				}
+				he.Violations++
+				o.nViol++
+				l := fmt.Sprintf("VIOLATION property=%s replay=%s\n  harness=%s kind=%s msg=%q at %s (%s)", *prop, rp, cfg.Name, v.Kind, v.Msg, v.Where, status)
+				if *verbose {
+					for _, t := range v.Trace {
+						l += "\n    trace: " + t
+					}
+				}
+				say("%s", l)
+				o.exit = 1
+			}
+			for _, s := range hr.Samples {
+				if len(o.samples) < 4 {
+					o.samples = append(o.samples, map[string]string{"harness": cfg.Name, "obligation": s})
+				}
+			}
+			l := fmt.Sprintf("  %-28s paths=%d done=%d pruned=%d panic=%d abort=%d forks=%d oblig=%d/%d unknown=%d queries=%d solver=%.1fs wall=%.1fs viol=%d known=%d",
+				cfg.Name, hr.Paths, hr.Done, hr.Pruned, hr.PanicPaths, hr.Aborted, hr.Forks, hr.Discharged, hr.Asserts, hr.Unknown, hr.Solver.Queries,
+				float64(hr.Solver.WallNS)/1e9, hr.WallS, he.Violations, he.Known)
+			if *verbose {
+				type kv struct {
+					k string
+					v int
+				}
+				var fsl []kv
+				for k, v := range hr.ForkSites {
+					fsl = append(fsl, kv{k, v})
+				}
+				sort.Slice(fsl, func(i, j int) bool { return fsl[i].v > fsl[j].v })
+				for i, e := range fsl {
+					if i >= 12 {
+						break
+					}
+					l += fmt.Sprintf("\n    forks x%d at %s", e.v, e.k)
+				}
+				for m, n := range hr.AbortMsgs {
+					l += fmt.Sprintf("\n    abort x%d: %s", n, m)
+				}
+			}
+			say("%s", l)
+		}()
+	}
+	hwg.Wait()
+	for _, o := range outs {
+		if o == nil {
+			continue
+		}
+		if o.he != nil {
+			evs = append(evs, *o.he)
+		}
+		inconclusive = append(inconclusive, o.inconclusive...)
+		for _, s := range o.samples {
+			if len(samples) < 16 {
+				samples = append(samples, s)
+			}
+		}
+		nViol += o.nViol
+		if o.exit == 1 {
 			exit = 1
 		}
-		for _, s := range hr.Samples {
-			if len(samples) < 12 {
-				samples = append(samples, map[string]string{"harness": cfg.Name, "obligation": s})
-			}
-		}
-		evs = append(evs, he)
-		fmt.Printf("  %-28s paths=%d done=%d pruned=%d panic=%d abort=%d forks=%d oblig=%d/%d unknown=%d queries=%d solver=%.1fs wall=%.1fs viol=%d known=%d\n",
-			cfg.Name, hr.Paths, hr.Done, hr.Pruned, hr.PanicPaths, hr.Aborted, hr.Forks, hr.Discharged, hr.Asserts, hr.Unknown, hr.Solver.Queries,
-			float64(hr.Solver.WallNS)/1e9, hr.WallS, he.Violations, he.Known)
-		if *verbose {
-			type kv struct {
-				k string
-				v int
-			}
-			var fsl []kv
-			for k, v := range hr.ForkSites {
-				fsl = append(fsl, kv{k, v})
-			}
-			sort.Slice(fsl, func(i, j int) bool { return fsl[i].v > fsl[j].v })
-			for i, e := range fsl {
-				if i >= 12 {
-					break
-				}
-				fmt.Printf("    forks x%d at %s\n", e.v, e.k)
-			}
-			for m, n := range hr.AbortMsgs {
-				fmt.Printf("    abort x%d: %s\n", n, m)
+		for _, kid := range o.known {
+			if !knownPrinted[kid] {
+				knownPrinted[kid] = true
+				fmt.Printf("KNOWN-FINDING: property=%s %s: %s\n", *prop, kid, knownByID[kid].Description)
 			}
 		}
 	}
@@ -302,7 +364,6 @@ func cmdCheck(args []string) int {
 		return 2
 	}
 	fmt.Printf("OK property=%s tier=%s wall=%.1fs\n", *prop, *tier, wall)
-	_ = nativeReplays
 	return 0
 }
 
